@@ -181,6 +181,16 @@ def _map(p):
     if kind in ("unitary", "mixed-unitary", "pauli", "cptp", "replacer", "amplitude-damping", "identity"):
         kr = _kraus(kind, d, rng)
         return _choi(kr, d), dict(kraus=kr, channel=True)
+    if kind == "tp-transpose":  # the transpose map: trace preserving, positive, not completely positive; cb trace norm d
+        j = np.zeros((d * d, d * d), dtype=complex)
+        for a in range(d):
+            for b in range(d):
+                j[a * d + b, b * d + a] = 1.0  # J = sum_ab E_ab (x) E_ba
+        return j, dict(tp=True, value=float(d))
+    if kind == "tp-not-cp":  # t * channel_1 + (1 - t) * channel_2 with t > 1: trace preserving, Hermiticity preserving, not CP
+        k1, k2 = _kraus("unitary", d, rng), _kraus("replacer", d, rng)
+        t = 1.0 + float(rng.uniform(0.5, 1.5))
+        return _herm(t * _choi(k1, d) + (1 - t) * _choi(k2, d)), dict(tp=True)
     raise ValueError(kind)
 
 
@@ -807,14 +817,14 @@ def cases(tier, seed):
                 add("cbtn.cp_le_opnorm", prm, "cbtn/%s/d=%d" % (kind, d))
                 add("cbsn.cp_ge_opnorm", prm, "cbsn/%s/d=%d" % (kind, d))
                 add("cbsn.cp_le_opnorm", prm, "cbsn/%s/d=%d" % (kind, d))
-        for kind in ("cp", "channel-difference", "hermitian-preserving", "hermitian-preserving-real", "cptp", "unitary"):
+        for kind in ("cp", "channel-difference", "hermitian-preserving", "hermitian-preserving-real", "cptp", "unitary", "tp-transpose", "tp-not-cp"):
             for c in ([2.0, 0.0], [0.5, 0.0], [-1.0, 0.0], [-2.5, 0.0], [0.0, 1.0], [0.6, -0.8], [1.5, 2.0]):
                 sign = "positive" if (c[1] == 0 and c[0] > 0) else ("negative" if c[1] == 0 else "complex")
                 if d == 3 and not thorough and sign == "complex" and c != [0.6, -0.8]:
                     continue
                 add("cbtn.homogeneous", dict(d=d, kind=kind, c=c, seed=seed), "cbtn/homogeneity/%s/%s-scalar/d=%d" % (kind, sign, d))
-        for kind in ("channel-difference", "hermitian-preserving", "hermitian-preserving-real"):
-            for s in seeds + [seed + 50]:
+        for kind in ("channel-difference", "hermitian-preserving", "hermitian-preserving-real", "tp-transpose", "tp-not-cp"):
+            for s in (seeds + [seed + 50]) if kind != "tp-transpose" else [seed]:
                 prm = dict(d=d, kind=kind, seed=s)
                 add("cbtn.ge_choi_normalised", prm, "cbtn/%s/d=%d" % (kind, d))
                 add("cbtn.ge_concrete_inputs", prm, "cbtn/%s/d=%d" % (kind, d))
